@@ -859,6 +859,17 @@ def tseval_records(rng, n):
         k = rng.randint(1, 6)
         xp = [[F(rng.randint(4 * a, 4 * b), rng.choice([1, 2, 4, 4])) for _ in range(k)] for _ in range(nt)]
         xp = [[min(max(x, F(a)), F(b)) for x in row] for row in xp]
+        near = rng.random() < 0.3
+        if near:
+            # far from 0, rows that are equal / NEARLY equal (1e-5 .. 1e-6 relative) / clearly different
+            shift = rng.choice([1000, 1500, -1200])
+            a, b, xmin, xmax, lo, hi = a + shift, b + shift, xmin + shift, xmax + shift, lo + shift, hi + shift
+            nt = rng.randint(2, 3)
+            nc = min(nc, 3)
+            coeff = [[F(rng.randint(-4, 4), rng.choice([1, 1, 2])) for _ in range(nc)] for _ in range(nt)]
+            row0 = [x + shift for x in xp[0]]
+            xp = [row0] + [[x + d for x in row0] for d in
+                           [rng.choice([F(0), F(1, 128), F(1, 64), F(-1, 128), F(1, 2)]) for _ in range(nt - 1)]]
         cf = np.array([[float(v) for v in r] for r in coeff])
         lay = rng.choice(LAYOUTS2)
         if rng.random() < 0.3:          # integral positions, handed over in an integer type where they fit
@@ -892,9 +903,22 @@ def tseval_records(rng, n):
                      'xmin': rq(xmin), 'xmax': rq(xmax),
                      'jump': {'on': on, 'lo': rq(lo), 'hi': rq(hi), 'val': rq(val)}, 'ign': bool(ign),
                      'xp': [[rq(v) for v in r] for r in xp], 'vals': vals, 'grid': gs, 'gi': gi, 'gvals': gvals,
-                     'tol': TOLU32 if small else TOLU64, 'exc': exc, 'layout': lay})
+                     'tol': TOLU32 if small else TOLU64, 'exc': exc, 'layout': lay, 'near': near})
         if ':' in lay and not exc:
             recs[-1]['finding'] = 'D-C13-5'         # integer-typed positions: applies only if the record is rejected
+        # row independence: the traces evaluated together against each trace evaluated alone (a one-trace table)
+        info = {'basis': basis, 'nc': nc, 'nTrace': nt, 'near': near, 'layout': lay}
+        try:
+            _, ytog = traceset2xy(t, xpa, ignore_jump=ign)
+            d = 0.0
+            for kk in range(nt):
+                t1 = TraceSet(fits_rec(basis, float(xmin), float(xmax), cf[kk:kk + 1, :],
+                                       (float(lo), float(hi), float(val)) if on else None))
+                _, y1 = traceset2xy(t1, np.asarray(xpa)[kk:kk + 1, :], ignore_jump=ign)
+                d = max(d, float(np.abs(np.asarray(ytog)[kk, :] - np.asarray(y1)[0, :]).max()))
+            recs.append(law('rowalone', units(d, max(1.0, float(np.abs(np.asarray(ytog)).max()))), **info))
+        except Exception as ex:
+            recs.append(law('rowalone', 2 * 10**9, crash=True, exc=describe(ex), **info))
         recs.append(unchanged(snap, 'traceset2xy', basis=basis, nc=nc))
     return recs
 
@@ -1110,7 +1134,14 @@ def tset_law_records(rng, nprng, n):
         dt = np.float32 if width == 32 else np.float64
         x0 = rng.choice([0.0, 0.0, 100.0, -7.5, 40.0, -float(nx + 5)])
         xpos = np.tile(np.arange(nx, dtype=np.float64) + x0, (nt, 1))
-        if it % 2:
+        near = width == 64 and rng.random() < 0.3
+        if near:
+            # far from 0, each row the first one shifted by 0 / a tiny amount (1e-7 .. 4e-6 relative) / clearly
+            x0 = rng.choice([1000.0, 1500.0, -1300.0])
+            xpos = np.tile(np.arange(nx, dtype=np.float64) + x0, (nt, 1))
+            for k in range(1, nt):
+                xpos[k, :] += rng.choice([0.0, 1e-4, 1e-3, 4e-3, -4e-3, 0.1])
+        elif it % 2:
             xpos = xpos + nprng.uniform(-0.3, 0.3, xpos.shape)
         xpos = xpos.astype(dt)
         ypos = (50 + 10 * np.sin(xpos / nx * 3) + nprng.normal(0, 0.3, xpos.shape)).astype(dt)
